@@ -136,6 +136,35 @@ func walkValue(v reflect.Value, f func(ast.Node)) {
 	}
 }
 
+// Edge is a child node with the name of the parent's field that holds it.
+type Edge struct {
+	Field string
+	Node  ast.Node
+}
+
+// Edges returns the direct child nodes of n in field order with the top-level field each
+// one is reached through.
+func Edges(n ast.Node) []Edge {
+	var out []Edge
+	v := reflect.ValueOf(n)
+	if v.Kind() != reflect.Ptr || v.IsNil() {
+		return nil
+	}
+	v = v.Elem()
+	if v.Kind() != reflect.Struct {
+		return nil
+	}
+	t := v.Type()
+	for i := 0; i < v.NumField(); i++ {
+		f := t.Field(i)
+		if f.PkgPath != "" || f.Type == positionType || f.Type.Implements(reflectType) {
+			continue
+		}
+		walkValue(v.Field(i), func(c ast.Node) { out = append(out, Edge{f.Name, c}) })
+	}
+	return out
+}
+
 // Children returns the direct child nodes of n in field order.
 func Children(n ast.Node) []ast.Node {
 	var out []ast.Node
